@@ -29,7 +29,7 @@ CHECKS = {
          "Print orders of unions/structs come from std's per-instance hash keys; several instances per type sample them, the orders are not enumerated.",
          "DESIGN.md section 3, C15"),
  "C20": ("proptest-generated nested values + exhaustive boundary scalars / 1-2 character strings, print -> Variable::from_str / Code::parse round trip; integer literal texts against their mathematical value (reference model)",
-         "Values up to depth 4 over boundary ints, finite floats, adversarial strings, (), arrays and tuples are built through public constructors, rendered and parsed back both as value literal and as program; content, ==, and type must be preserved. Integer literals in four radixes with underscores up to 2^65 must denote their value or be rejected as too big. Arrays and tuples over look-alike families (signed zeros, 1 vs 1.0, `[]` vs `[[]]`, "" vs " ") are enumerated.",
+         "Values up to depth 4 over boundary ints, finite floats, adversarial strings, (), arrays and tuples are built through public constructors, rendered and parsed back both as value literal and as program; content, ==, and type must be preserved. Integer literals in four radixes with underscores up to 2^65 must denote their value or be rejected as too big. Arrays and tuples over look-alike families (signed zeros, 1 vs 1.0, `[]` vs `[[]]`, "" vs " ") are enumerated. About 6000 of the values also go, as lines, through the REPL executable (src/main.rs, built by ./check from /repo's working tree): each line must be answered with the same text.",
          "Trusts the harness's JSON model of values and Rust's float formatting being shortest-round-trip.",
          "DESIGN.md section 3, C20"),
  "C14": ("exhaustive enumeration of operator pairs/triples and hand-written templates; metamorphic oracle: unparenthesised text == table-prescribed fully parenthesised text, with operand search for distinguishing values",
@@ -41,7 +41,7 @@ CHECKS = {
          "Inputs nested deeper than 40 brackets and imports outside the scratch directory are skipped (stack exhaustion and device reads are outside the claim); a panic hook + catch_unwind is the observation.",
          "DESIGN.md section 3, C03"),
  "C16": ("seeded workload generation + repeated execution on real oversubscribed threads (schedule sampling); oracles: orbit multiset of returned values, per-update bit ownership, brute-force linearizability against the i128 model, sequential-result differential",
-         "Lost, duplicated or torn updates of every assignment operator are made visible by construction (injective orbits, one bit per update, identity updates racing with increments, linearizability of small histories, appends of distinct tokens to shared array / string / float cells); unshared executions of shared Code/Function values (incl. the lazy iterator helpers, and a cell made from a constant in each of 26 syntactic positions) must equal what a fresh parse and a single run give. Hundreds of workloads x repetitions per quick run, ~4M shared operations.",
+         "Lost, duplicated or torn updates of every assignment operator are made visible by construction (injective orbits, one bit per update, identity updates racing with increments, linearizability of small histories, appends of distinct tokens to shared array / string / float cells); unshared executions of shared Code/Function values (incl. the lazy iterator helpers, a cell made from a constant in each of 26 syntactic positions, embedders importing one file) must equal what a fresh parse and a single run give; iterator adapters (`?`, `? T`, `@`, chains) over an atomic ticket source pulled by several threads hand out exactly the elements a single puller gets. Hundreds of workloads x repetitions per quick run, ~4M shared operations.",
          "The harness does not own the scheduler: interleavings are sampled by repetition on 16 cores; a race needing one rare interleaving, or a deadlock (reported as inconclusive by the watchdog), can be missed.",
          "DESIGN.md section 3 C16 and section 7"),
  "C19": ("proptest-generated value pairs x provenance paths + exhaustive basis x path pairs; oracle: structural equality of the harness's value model (reference model), symmetry/negation/reflexivity laws",
